@@ -331,6 +331,75 @@ fn run_scope_kernel(spec: &str, args: &[P]) -> String {
     format!("{head} ; {}", dump(&stack))
 }
 
+/// object kernels on REAL objects.  Operands: values of the fields f, g of object a (and of object b where one is needed), then
+/// the operation's own operands.  Field cells are created with empty flags.
+fn run_object_kernel(spec: &str, args: &[P]) -> String {
+    use crate::stack::{PrimitiveFlagsPair, VariableFlags, VariableMapping};
+    use crate::variables::Object;
+    let mapping = |f: &P, g: &P| -> VariableMapping {
+        let mut m = std::collections::HashMap::new();
+        m.insert("f".to_string(), PrimitiveFlagsPair::new(f.clone(), VariableFlags::none()));
+        m.insert("g".to_string(), PrimitiveFlagsPair::new(g.clone(), VariableFlags::none()));
+        m.into()
+    };
+    let fields = |o: &Object| -> String {
+        format!("f={},g={}", item(&o.get_property("f", false).unwrap().primitive()), item(&o.get_property("g", false).unwrap().primitive()))
+    };
+    let new_ctx_run = |f: &dyn Fn(&mut Ctx) -> String| -> String {
+        let function = Function::new(Weak::new(), "verif".to_string(), Box::new([]));
+        let stack = Rc::new(RefCell::new(Stack::new()));
+        let mut ctx = Ctx::new(&function, stack, Cow::Owned(vec![]), None);
+        let out = f(&mut ctx);
+        std::mem::forget(ctx);
+        out
+    };
+    match spec {
+        "is:alias" | "is:other" | "is:build" => {
+            let a = Object::new("C".to_string(), mapping(&args[0], &args[1]));
+            let b = match spec {
+                "is:alias" => a.clone(),
+                "is:other" => Object::new("C".to_string(), mapping(&args[0], &args[1])),
+                _ => {
+                    // two builds from one builder state
+                    let mut bld = crate::variables::ObjectBuilder::new();
+                    let m = mapping(&args[0], &args[1]);
+                    let x = bld.name("C".to_string()).object_variables(VariableMapping::clone(&m)).build();
+                    let y = bld.name("C".to_string()).object_variables(VariableMapping::clone(&m)).build();
+                    return match P::Object(x).runtime_addr_check(&P::Object(y)) {
+                        Ok(p) => format!("OK {}", item(&p)),
+                        Err(_) => "ERR".to_string(),
+                    };
+                }
+            };
+            match P::Object(a).runtime_addr_check(&P::Object(b)) {
+                Ok(p) => format!("OK {}", item(&p)),
+                Err(_) => "ERR".to_string(),
+            }
+        }
+        "write:f" | "write:g" | "read:zz" => {
+            // through an ALIAS: look the field up, write the last operand through the pointer; observe through the original
+            let a = Object::new("C".to_string(), mapping(&args[0], &args[1]));
+            let other = Object::new("C".to_string(), mapping(&args[0], &args[1]));
+            let alias = a.clone();
+            let field = &spec[spec.len() - 1..];
+            let field = if spec == "read:zz" { "zz" } else { field };
+            let head = new_ctx_run(&|ctx: &mut Ctx| {
+                ctx.push(P::Object(alias.clone()));
+                if imp::lookup(ctx, &[field.to_string()]).is_err() {
+                    return "ERR".to_string();
+                }
+                ctx.push(args[2].clone());
+                match imp::ptr_mut(ctx, &[]) {
+                    Ok(()) => "OK".to_string(),
+                    Err(_) => "ERR".to_string(),
+                }
+            });
+            format!("{head} | {} | {}", fields(&a), fields(&other))
+        }
+        other => panic!("object op {other}"),
+    }
+}
+
 fn item(p: &P) -> String {
     // "<Kind>:<hexbits>" in the vocabulary of the vector files (Nil, Some<K>, plain kinds)
     let s = show(p);
@@ -464,6 +533,9 @@ pub fn eval_ext(op: &str, args: &[P]) -> String {
     }
     if let Some(m) = op.strip_prefix("B:") {
         return run_builtin(m, args);
+    }
+    if let Some(rest) = op.strip_prefix("J:") {
+        return run_object_kernel(rest, args);
     }
     if let Some(rest) = op.strip_prefix("K:") {
         return run_scope_kernel(rest, args);
